@@ -210,9 +210,44 @@ def check_encoding(prog, rep, m):
     consts = {n: const(v[0]) for n, v in m.assigns.items() if len(v) == 1}
     rep.add('T5', m, entry, 'INVISIBLE = %s' % consts.get('INVISIBLE'), 1, consts.get('INVISIBLE') == -1, 'invisible cells are -1')
     cpu = m.funcs.get('_viewshed_cpu')
-    t = [T(s) for s in cpu.own_nodes() if isinstance(s, (ast.Assign, ast.Expr))]
-    ok = 'visibility_grid.fill(INVISIBLE)' in t and 'visibility_grid=np.empty(shape=raster.shape,dtype=np.float64)' in t
-    rep.add('T5', cpu, entry, 'visibility grid filled with INVISIBLE', cpu.node.lineno, ok, 'every cell starts invisible')
+    # the grid handed to the kernels starts entirely INVISIBLE, as float64 of the raster's shape
+    grid = None
+    for c in calls(cpu.node):
+        t_ = prog.resolve_callable(cpu, m, c.func)
+        if isinstance(t_, Func) and t_.name == '_viewshed_cpu_sweep':
+            for p, a in zip(t_.params, c.args):
+                if p == 'visibility_grid' and isinstance(a, ast.Name):
+                    grid = a.id
+            for kk in c.keywords:
+                if kk.arg == 'visibility_grid' and isinstance(kk.value, ast.Name):
+                    grid = kk.value.id
+    shape_names = set()
+    for n in cpu.own_nodes():
+        if isinstance(n, ast.Assign) and isinstance(n.targets[0], ast.Tuple) and T(n.value) == 'raster.shape':
+            shape_names.add('(%s)' % ','.join(T(e) for e in n.targets[0].elts))
+    for n in list(cpu.own_nodes()):
+        if isinstance(n, ast.Assign) and isinstance(n.targets[0], ast.Tuple) and isinstance(n.value, ast.Tuple) and \
+                '(%s)' % ','.join(T(e) for e in n.value.elts) in shape_names:
+            shape_names.add('(%s)' % ','.join(T(e) for e in n.targets[0].elts))
+    allocs = [v for v in cpu.local_assigns().get(grid, []) if isinstance(v, ast.AST)] if grid else []
+    ok = False
+    if len(allocs) == 1 and isinstance(allocs[0], ast.Call):
+        c = allocs[0]
+        shp = c.args[0] if c.args else kw(c, 'shape')
+        okshape = shp is not None and (T(shp) == 'raster.shape' or T(shp) in shape_names)
+        dt = kw(c, 'dtype')
+        okdt = dt is not None and T(dt) in ('np.float64', 'float', 'numpy.float64')
+        if short(c) == 'full':
+            fv = c.args[1] if len(c.args) > 1 else kw(c, 'fill_value')
+            ok = okshape and okdt and fv is not None and T(fv) == 'INVISIBLE'
+        elif short(c) in ('empty', 'zeros', 'ones'):
+            fills = [x for x in cpu.own_nodes() if (isinstance(x, ast.Expr) and isinstance(x.value, ast.Call) and short(x.value) == 'fill'
+                                                   and T(x.value.func.value) == grid and len(x.value.args) == 1 and T(x.value.args[0]) == 'INVISIBLE') or
+                     (isinstance(x, ast.Assign) and isinstance(x.targets[0], ast.Subscript) and T(x.targets[0].value) == grid and
+                      T(x.targets[0].slice) in (':', '...', '(:,:)', ':,:') and T(x.value) == 'INVISIBLE')]
+            ok = okshape and okdt and len(fills) >= 1
+    rep.add('T5', cpu, entry, 'visibility grid %s filled with INVISIBLE' % grid, cpu.node.lineno, ok,
+            'every cell starts invisible: the grid handed to the kernels must be a float64 array of the raster\'s shape filled with INVISIBLE')
     init = m.funcs.get('_init_event_list')
     ok = any(isinstance(n, ast.If) and T(n.test) == 'i==vp_rowandj==vp_col' and
              any(T(s) == '_set_visibility(visibility_grid,i,j,180)' for s in n.body) and isinstance(n.body[-1], ast.Continue)
@@ -221,17 +256,6 @@ def check_encoding(prog, rep, m):
     sv = m.funcs.get('_set_visibility')
     ok = sv is not None and any(T(s) == 'visibility_grid[i][j]=value' or T(s) == 'visibility_grid[i,j]=value' for s in sv.own_nodes())
     rep.add('T5', sv or m, entry, '_set_visibility stores at [i][j]', sv.node.lineno if sv else 1, ok, '')
-    sweep = m.funcs.get('_viewshed_cpu_sweep')
-    stores = [c for c in calls(sweep.node) if short(c) == '_set_visibility']
-    ok = len(stores) == 1 and [T(a) for a in stores[0].args] == ['visibility_grid', 'status_row', 'status_col', 'vert_ang']
-    vis = [n for n in sweep.own_nodes() if isinstance(n, ast.If) and T(n.test) in ('max<=status_node[TN_GRAD_1]',)]
-    ok = ok and len(vis) == 1 and stores[0] in list(ast.walk(vis[0]))
-    rep.add('T5', sweep, entry, 'visible cells: _set_visibility(grid, row, col, vertical angle) under max gradient <= own gradient',
-            sweep.node.lineno, ok, 'a cell is written only when no nearer cell has a greater gradient, with its own row/col')
-    va = [n for n in sweep.own_nodes() if isinstance(n, ast.Assign) and T(n.targets[0]) == 'vert_ang']
-    ok = len(va) == 1 and T(va[0].value) == '_get_vertical_ang(vp_elev,status_node[TN_KEY_ID],e_ae[AE_ELEV_1]+vp_target)'
-    rep.add('T5', sweep, entry, norm(va[0])[:120] if va else 'vertical angle', sweep.node.lineno, ok,
-            'the vertical angle is taken from the observer elevation, the squared distance key and the cell elevation plus target height')
     # _get_vertical_ang branches
     f = m.funcs.get('_get_vertical_ang')
     k = interpret(prog, f)
@@ -252,19 +276,61 @@ def check_encoding(prog, rep, m):
             'sqrt(squared distance); mismatches (dz, dist2, got, want): %s' % bad[:3])
 
 
+def check_gradient(prog, rep, m, f, entry):
+    """T6 on the interpreted helper: parameters are (row, col, elev, vp_row, vp_col, vp_elev, ew_res, ns_res); the
+    squared distance is ((col - vp_col) * ew_res)^2 + ((row - vp_row) * ns_res)^2 and the gradient atan(dz / dist)"""
+    from ..kutil import Spec
+    k = interpret(prog, f, strict=False)
+    P = f.params
+    if len(P) != 8 or len(k.returns) != 1:
+        rep.add('T6', f, entry, '%s' % f.name, f.node.lineno, None, 'expected 8 parameters and one return')
+        return
+    row, col, elev, vrow, vcol, velev, ew, ns = [Rat.sym(p) for p in P]
+    sp = Spec(prog, {})
+    D = ((col - vcol) * ew) * ((col - vcol) * ew) + ((row - vrow) * ns) * ((row - vrow) * ns)
+    want = sp.it.app('arctan', [(elev - velev) / sp.it.app('sqrt', [D])])
+    v = k.returns[0][0]
+    grad = v.items[-1] if isinstance(v, TupleV) else v
+    okd = True
+    if isinstance(v, TupleV):
+        okd = len(v.items) == 2 and isinstance(v.items[0], Rat) and v.items[0] == D
+    ats = [a for a in walk_atoms(grad) if isinstance(a, App) and a.name == 'arctan'] if isinstance(grad, Rat) else []
+    okf = len(ats) == 1 and Rat.atom(ats[0]) == want
+    rep.add('T6', f, entry, '%s: dx = dcol * ew_res, dy = drow * ns_res, dist2 = dx^2 + dy^2' % f.name, f.node.lineno, okd and okf,
+            'the east-west resolution scales column differences and the north-south resolution row differences (squared '
+            'distance and the distance under the gradient); got %s' % show(ats[0] if ats else grad, 200))
+    # the gradient is that arctan away from the viewpoint, and +-pi/2 / 0 straight above / below / on it
+    ok = None
+    why = ''
+    if okf:
+        try:
+            base = {next(iter(x.atoms())): Fraction(val) for x, val in ((vrow, 4), (vcol, 6), (velev, 100), (ew, 2), (ns, 3))}
+            res = []
+            for r_, c_, e_, want_ in ((5, 8, 130, 'atan'), (4, 7, 90, 'atan'), (4, 6, 130, '+'), (4, 6, 70, '-'), (4, 6, 100, '0')):
+                env = dict(base)
+                env[next(iter(row.atoms()))] = Fraction(r_)
+                env[next(iter(col.atoms()))] = Fraction(c_)
+                env[next(iter(elev.atoms()))] = Fraction(e_)
+                env[ats[0]] = Fraction(12345, 100000)
+                g = evaluate(grad, env)
+                got = 'atan' if g == Fraction(12345, 100000) else '+' if g > 1 else '-' if g < -1 else '0' if g == 0 else '?'
+                res.append((r_, c_, e_, got, want_))
+            bad = [x for x in res if x[3] != x[4]]
+            ok = not bad
+            why = 'wrong at (row, col, elev, got, want) %s with the viewpoint at (4, 6, 100)' % bad
+        except CannotEvaluate as e:
+            why = str(e)
+    rep.add('T6', f, entry, '%s: gradient = atan(dz / dist)' % f.name, f.node.lineno, ok if okf else False,
+            'the gradient is the elevation angle of the point (pi/2 above, -pi/2 below, 0 at the viewpoint itself); ' + why)
+
+
 def check_axes(prog, rep, m):
     entry = 'viewshed geometry'
     for fn in ('_calc_event_grad', '_calc_dist_n_grad'):
         f = m.funcs.get(fn)
-        t = {T(s) for s in f.own_nodes() if isinstance(s, ast.Assign)}
-        rowp, colp = f.params[0], f.params[1]
-        ok = 'dx=(%s-viewpoint_col)*ew_res' % colp in t and 'dy=(%s-viewpoint_row)*ns_res' % rowp in t and \
-            'distance_to_viewpoint=dx*dx+dy*dy' in {x.replace('(', '').replace(')', '') for x in t} and \
-            'diff_elev=elev-viewpoint_elev' in t
-        rep.add('T6', f, entry, '%s: dx = dcol * ew_res, dy = drow * ns_res, dist2 = dx^2 + dy^2' % fn, f.node.lineno, ok,
-                'the east-west resolution scales column differences and the north-south resolution row differences')
-        ok = any(T(s.value) == 'atan(diff_elev/sqrt(distance_to_viewpoint))' for s in f.own_nodes() if isinstance(s, ast.Assign))
-        rep.add('T6', f, entry, '%s: gradient = atan(dz / dist)' % fn, f.node.lineno, ok, 'the gradient is the elevation angle of the point')
+        if f is None:
+            raise AnalysisIncomplete('%s not found' % fn)
+        check_gradient(prog, rep, m, f, entry)
     cpu = m.funcs.get('_viewshed_cpu')
     t = {T(s) for s in cpu.own_nodes() if isinstance(s, ast.Assign)}
     ok = 'ew_res=(x_range[1]-x_range[0])/(width-1)' in t and 'ns_res=(y_range[1]-y_range[0])/(height-1)' in t and \
@@ -301,71 +367,332 @@ def check_axes(prog, rep, m):
     rep.add('T10', cpu, entry, norm(ve[0]) if ve else 'viewpoint_elev', ve[0].lineno if ve else cpu.node.lineno, ok,
             'the observer elevation must be formed in floating point: terrain value widened BEFORE observer_elev is added '
             '(uint8 250 + 10 wraps to 4)')
-    tg = any(isinstance(n, ast.If) and T(n.test) == 'target_elev>0' and T(n.body[0]) == 'viewpoint_target=target_elev' for n in cpu.own_nodes())
-    rep.add('T10', cpu, entry, 'target height applied when positive', cpu.node.lineno, tg and 'viewpoint_target=0.0' in t, '')
+    # the target height handed to the sweep is max(target_elev, 0): evaluated on its defining statements
+    tname = None
+    if len(sweepcall) == 1 and len(sweepcall[0].args) > 4 and isinstance(sweepcall[0].args[4], ast.Name):
+        tname = sweepcall[0].args[4].id
+    okt = None
+    whyt = 'target height argument not found'
+    if tname is not None:
+        from ..kutil import Spec
+        param = next((p for p in cpu.params if p in ('target_elev',)), None) or tname
+        defs = [n for n in cpu.node.body if (isinstance(n, ast.Assign) and any(T(tg_) == tname for tg_ in n.targets)) or
+                (isinstance(n, ast.If) and any(isinstance(x, ast.Assign) and T(x.targets[0]) == tname for x in ast.walk(n)))]
+        try:
+            sp = Spec(prog, {param: Rat.sym(param)}, m)
+            for n in defs:
+                sp.it.stmt(n)
+            val = sp.it.as_scalar(sp.it.env.get(tname)) if defs else Rat.sym(tname)
+            res = [(x, evaluate(val, {Sym(param): Fraction(x)})) for x in (-3, 0, 5, Fraction(1, 2))]
+            okt = all(got == max(x, 0) for x, got in res)
+            whyt = 'target_elev -> height: %s' % [(str(a), str(b)) for a, b in res]
+        except (AnalysisIncomplete, CannotEvaluate) as e:
+            okt, whyt = None, str(e)
+    rep.add('T10', cpu, entry, 'target height applied when positive', cpu.node.lineno, okt,
+            'the target height added to every cell is target_elev when positive, else 0; ' + whyt)
     ok = 'raster.values=raster.values.astype(np.float64)' in t
     rep.add('T10', cpu, entry, 'kernels receive float64 terrain', cpu.node.lineno, ok, 'the event generation and the sweep work on float64 values')
 
 
+def _one(r):
+    if isinstance(r, Rat) and r.d.is_const() and len(r.n.t) == 1:
+        (mm, c), = r.n.t.items()
+        if len(mm) == 1 and mm[0][1] == 1 and isinstance(mm[0][0], App) and c == r.d.const_value():
+            return mm[0][0]
+    return None
+
+
+def _pos_multiple(a, b):
+    if a == b:
+        return True
+    if b.n.is_zero() or a.n.is_zero():
+        return False
+    r = a / b
+    return r.is_const() and r.const_value() > 0
+
+
 def check_sweep_skeleton(prog, rep, m):
-    """T11: structural premises of the sweep (not its correctness): event dispatch insert/delete/query with the right
-    keys, node fields filled from the matching event type, and the 2*pi fix-ups that keep a node's three angles ordered
-    for cells straddling bearing 0."""
+    """T11: structural premises of the sweep (not its correctness), on the interpreted kernel: every node field is the
+    matching helper applied to the matching event position / elevation (expected values are built by interpreting the
+    same helpers on symbolic arguments), the 2*pi fix-ups keep a node's three angles ordered for cells straddling
+    bearing 0, and each event type is dispatched to insert / delete / query with the right keys."""
+    from ..kai import Arr, cond_key, cond_repr
+    from ..kutil import Spec, guard_atoms
+    from ..sym import subst
     entry = 'viewshed sweep'
     f = m.funcs.get('_viewshed_cpu_sweep')
     if f is None:
         raise AnalysisIncomplete('_viewshed_cpu_sweep not found')
-    A0, A1, A2 = 'status_node[TN_ANG_0]', 'status_node[TN_ANG_1]', 'status_node[TN_ANG_2]'
-    # event loop dispatch
-    disp = [n for n in f.own_nodes() if isinstance(n, ast.If) and T(n.test) == 'etype==ENTERING_EVENT']
-    if len(disp) != 1:
-        rep.add('T11', f, entry, 'event dispatch', f.node.lineno, None, '`if etype == ENTERING_EVENT` not found')
+    k = interpret(prog, f, strict=False)
+    C = {n: const(v[0]) for n, v in m.assigns.items() if len(v) == 1 and isinstance(const(v[0]), (int, float))}
+    need = ['ENTERING_EVENT', 'EXITING_EVENT', 'CENTER_EVENT', 'E_ROW_ID', 'E_COL_ID', 'E_TYPE_ID', 'AE_ANG_ID', 'AE_ELEV_0', 'AE_ELEV_1',
+            'AE_ELEV_2', 'TN_KEY_ID', 'TN_GRAD_0', 'TN_GRAD_1', 'TN_GRAD_2', 'TN_ANG_0', 'TN_ANG_1', 'TN_ANG_2']
+    if any(n not in C for n in need):
+        raise AnalysisIncomplete('viewshed constants missing')
+    P = f.params
+    if len(P) < 11:
+        raise AnalysisIncomplete('_viewshed_cpu_sweep: unexpected signature')
+    raster, vp_row, vp_col, vp_elev, vp_target, ew_res, ns_res, rcts, aes, data, grid = P[:11]
+    ev = k.events
+    # the event loop: over all events
+    Le = None
+    for L in k.loops:
+        if L.kind == 'range' and L.lo == Rat.const(0) and _one(L.hi) is not None and _one(L.hi).name in ('len', 'shape') and \
+                (rcts in repr(_one(L.hi).args[0]) or aes in repr(_one(L.hi).args[0])):
+            Le = L
+    if Le is None:
+        rep.add('T11', f, entry, 'event loop', f.node.lineno, None, 'loop over all events not found')
         return
-    ent = disp[0]
-    ex = ent.orelse[0] if ent.orelse and isinstance(ent.orelse[0], ast.If) else None
-    ce = ex.orelse[0] if ex is not None and ex.orelse and isinstance(ex.orelse[0], ast.If) else None
-    ok = ex is not None and T(ex.test) == 'etype==EXITING_EVENT' and ce is not None and T(ce.test) == 'etype==CENTER_EVENT'
-    rep.add('T11', f, entry, 'dispatch ENTER -> insert, EXIT -> delete, CENTER -> query', ent.lineno, ok,
-            'each event type must be handled by its own branch')
-    if not ok:
+    i = Rat.sym(Le.var)
+
+    def rc(fld):
+        return Rat.atom(App('read', [rcts, i, Rat.const(C[fld])]))
+
+    def ae(fld):
+        return Rat.atom(App('read', [aes, i, Rat.const(C[fld])]))
+    ETY = _one(rc('E_TYPE_ID'))
+    node_arrs = {e[1].arr for e in ev if e[0] == 'store' and e[1].loops and e[1].loops[0] is Le and len(e[1].idx) == 1 and
+                 not isinstance(e[1].idx, str) and e[1].arr.name not in (rcts, aes)}
+    if len(node_arrs) != 1:
+        rep.add('T11', f, entry, 'status node', Le.node.lineno, None, 'status node array not identified')
         return
-    te = [T(s) for s in ast.walk(ent) if isinstance(s, (ast.Assign, ast.AugAssign, ast.Expr))]
-    ok = 'id=_pop(idle)' in te and 'root=_insert_into_tree(status_values,status_struct,root,id,status_node)' in te
-    rep.add('T11', f, entry, 'ENTER: node inserted under a free slot id', ent.lineno, ok, '')
-    tx = [T(s) for s in ast.walk(ex) if isinstance(s, (ast.Assign, ast.Expr))]
-    ok = 'root,deleted=_delete_from_tree(status_values,status_struct,root,status_node[TN_KEY_ID])' in tx and '_push(idle,deleted)' in tx
-    rep.add('T11', f, entry, 'EXIT: node deleted by its distance key and its slot recycled', ex.lineno, ok, '')
-    tc = [T(s) for s in ast.walk(ce) if isinstance(s, (ast.Assign, ast.Expr))]
-    ok = 'max=_max_grad_in_status_struct(status_values,status_struct,root,status_node[TN_KEY_ID],e_ae[AE_ANG_ID],status_node[TN_GRAD_1])' in tc
-    rep.add('T11', f, entry, 'CENTER: max gradient among nearer cells (key, bearing, own gradient)', ce.lineno, ok,
-            'the query must use the cell\'s distance key, the event\'s bearing and the cell\'s centre gradient')
-    # node fields from the matching event
-    need = ['%s=e_ae[AE_ANG_ID]' % A0, '%s=_calculate_angle(ax,ay,vp_col,vp_row)' % A1, '%s=_calculate_angle(ax,ay,vp_col,vp_row)' % A2,
-            'status_node[TN_GRAD_0]=_calc_event_grad(ay,ax,e_ae[AE_ELEV_0],vp_row,vp_col,vp_elev,ew_res,ns_res)',
-            'status_node[TN_GRAD_2]=_calc_event_grad(ay,ax,e_ae[AE_ELEV_2],vp_row,vp_col,vp_elev,ew_res,ns_res)',
-            'status_node[TN_KEY_ID],status_node[TN_GRAD_1]=_calc_dist_n_grad(status_row,status_col,e_ae[AE_ELEV_1],vp_row,vp_col,vp_elev,ew_res,ns_res)']
-    missing = [x for x in need if x not in te]
-    rep.add('T11', f, entry, 'ENTER: enter/centre/exit angles and gradients from the matching elevations', ent.lineno, not missing,
-            'gradient k must be computed from elevation k at the position of event k: missing %s' % missing[:2])
+    node = next(iter(node_arrs))
+
+    def expected(R, Cc, E0, E1, E2):
+        """the fields of a node for the cell (R, Cc) with elevations E0/E1/E2, by interpreting the helpers"""
+        env = {'R__': R, 'C__': Cc, 'E0__': E0, 'E1__': E1, 'E2__': E2}
+        for p in (vp_row, vp_col, vp_elev, vp_target, ew_res, ns_res):
+            env[p] = Rat.sym(p)
+        sp = Spec(prog, env, m)
+        sp.run("""
+ay0, ax0 = _calc_event_pos(ENTERING_EVENT, R__, C__, %(vr)s, %(vc)s)
+A0 = _calculate_angle(ax0, ay0, %(vc)s, %(vr)s)
+G0 = _calc_event_grad(ay0, ax0, E0__, %(vr)s, %(vc)s, %(ve)s, %(ew)s, %(ns)s)
+ay1, ax1 = _calc_event_pos(CENTER_EVENT, R__, C__, %(vr)s, %(vc)s)
+A1 = _calculate_angle(ax1, ay1, %(vc)s, %(vr)s)
+K1, G1 = _calc_dist_n_grad(R__, C__, E1__, %(vr)s, %(vc)s, %(ve)s, %(ew)s, %(ns)s)
+ay2, ax2 = _calc_event_pos(EXITING_EVENT, R__, C__, %(vr)s, %(vc)s)
+A2 = _calculate_angle(ax2, ay2, %(vc)s, %(vr)s)
+G2 = _calc_event_grad(ay2, ax2, E2__, %(vr)s, %(vc)s, %(ve)s, %(ew)s, %(ns)s)
+KT, GT = _calc_dist_n_grad(R__, C__, E1__ + %(vt)s, %(vr)s, %(vc)s, %(ve)s, %(ew)s, %(ns)s)
+""" % dict(vr=vp_row, vc=vp_col, ve=vp_elev, ew=ew_res, ns=ns_res, vt=vp_target))
+        return {n: sp.it.as_scalar(sp[n]) for n in ('A0', 'G0', 'A1', 'K1', 'G1', 'A2', 'G2', 'KT', 'GT')}
+    try:
+        X = expected(rc('E_ROW_ID'), rc('E_COL_ID'), ae('AE_ELEV_0'), ae('AE_ELEV_1'), ae('AE_ELEV_2'))
+    except AnalysisIncomplete as e:
+        rep.add('T11', f, entry, 'expected node fields', f.node.lineno, None, 'helpers not interpretable: %s' % e)
+        return
+    ANG = ae('AE_ANG_ID')
+    ENTER, EXIT, CENTER = C['ENTERING_EVENT'], C['EXITING_EVENT'], C['CENTER_EVENT']
+
+    def is_type_test(g):
+        ats = guard_atoms([g])
+        return ETY in ats and all(a == ETY or (isinstance(a, Sym) and a.name == Le.var) for a in ats)
+
+    def under(guards, ety):
+        """do the guards hold for an event of this type (other conditions taken as satisfiable: only type tests decide)"""
+        for g in guards:
+            if is_type_test(g):
+                try:
+                    if not eval_cond_full(g, {ETY: Fraction(ety)}):
+                        return False
+                except CannotEvaluate:
+                    return False
+        return True
+
+    def type_only(guards):
+        return [g for g in guards if not is_type_test(g)]
+    in_loop = [(j, e) for j, e in enumerate(ev) if (e[0] == 'store' and e[1].loops and e[1].loops[0] is Le) or
+               (e[0] == 'call' and e[1][4] and e[1][4][0] is Le)]
+    fix_type = lambda v, ety: subst(v, lambda a: Rat.const(ety) if a == ETY else None) if isinstance(v, Rat) else v
+    # ---- pre-dispatch: key and centre gradient with the target height
+    pre = {}
+    for j, e in in_loop:
+        if e[0] == 'store' and e[1].arr is node and not e[1].guards:
+            pre[repr(e[1].idx[0])] = e[1].value
+    okpre = pre.get(repr(Rat.const(C['TN_KEY_ID']))) == X['KT'] and pre.get(repr(Rat.const(C['TN_GRAD_1']))) == X['GT']
+    rep.add('T11', f, entry, 'every event: distance key and centre gradient of the cell, target height included', Le.node.lineno, okpre,
+            'before the dispatch the node carries the squared distance of the cell and the gradient of its centre elevation plus the '
+            'target height (the query and the delete use them)')
+    # ---- ENTER
+    ent = [(j, e) for j, e in in_loop if under(e[1].guards if e[0] == 'store' else e[1][2], ENTER) and
+           (e[1].guards if e[0] == 'store' else e[1][2]) and not under(e[1].guards if e[0] == 'store' else e[1][2], EXIT)]
+    last = {}
+    fixups = []
+    for j, e in ent:
+        if e[0] == 'store' and e[1].arr is node:
+            extra = type_only(e[1].guards)
+            if not extra:
+                last[repr(e[1].idx[0])] = fix_type(e[1].value, ENTER)
+            else:
+                fixups.append((e[1], extra))
+    want = {'TN_ANG_0': ANG, 'TN_ANG_1': X['A1'], 'TN_ANG_2': X['A2'], 'TN_GRAD_0': X['G0'], 'TN_KEY_ID': X['K1'],
+            'TN_GRAD_1': X['G1'], 'TN_GRAD_2': X['G2']}
+    wrong = [n for n, v in want.items() if last.get(repr(Rat.const(C[n]))) != v]
+    rep.add('T11', f, entry, 'ENTER: enter/centre/exit angles and gradients from the matching elevations', Le.node.lineno, not wrong,
+            'field k of the inserted node must be the helper for event k applied to the position of event k and elevation k (enter '
+            'angle = the event\'s own angle; key and centre gradient without the target height): wrong %s' % wrong)
     # 2*pi fix-ups
-    fix = [n for n in ast.walk(ent) if isinstance(n, ast.If) and T(n.test) == 'e_ae[AE_ANG_ID]<PI']
-    ok = False
-    if len(fix) == 1:
-        n = fix[0]
-        b = [x for x in n.body if isinstance(x, ast.If)]
-        o = [x for x in n.orelse if isinstance(x, ast.If)]
-        ok = len(b) == 1 and len(o) == 1 and T(b[0].test) == '%s>%s' % (A0, A1) and [T(x) for x in b[0].body] == ['%s-=2*PI' % A0] and \
-            T(o[0].test) == '%s>%s' % (A0, A1) and sorted(T(x) for x in o[0].body) == sorted(['%s+=2*PI' % A1, '%s+=2*PI' % A2])
-    rep.add('T11', f, entry, 'ENTER: 2*pi fix-up for cells straddling bearing 0', ent.lineno, ok,
+    twopi = Rat.const(2) * Rat.sym('pi')
+    okfix = len(fixups) == 3
+    whyfix = '%d conditional node stores' % len(fixups)
+    seen = set()
+    A0cells = lambda r: _one(r) is not None and _one(r).name in ('read', 'cell?') and _one(r).args[0] == node.name and \
+        _one(r).args[1] == Rat.const(C['TN_ANG_0'])
+    for st, extra in fixups:
+        fl = []
+        for g in extra:
+            fl.extend(g[1:] if g[0] == 'and' else [g])
+        side = None
+        strad = False
+        for g in fl:
+            ats = guard_atoms([g])
+            if _one(ANG) in ats and all(a == _one(ANG) or (isinstance(a, Sym) and a.name in ('pi', Le.var)) for a in ats):
+                try:
+                    lo = eval_cond_full(g, {_one(ANG): Fraction(1)})
+                    hi = eval_cond_full(g, {_one(ANG): Fraction(4)})
+                    side = 'low' if lo and not hi else 'high' if hi and not lo else None
+                except CannotEvaluate:
+                    side = None
+            elif g[0] == 'cmp' and g[1] == '<' and any(_pos_multiple(g[3], X['A1'] - a0) for a0 in
+                                                      [ANG] + [Rat.atom(a) for a in ats if A0cells(Rat.atom(a))]):
+                strad = True
+        fld = st.idx[0]
+        v = fix_type(st.value, ENTER)
+        if fld == Rat.const(C['TN_ANG_0']):
+            okv = v == ANG - twopi or (_one(v + twopi) is not None and A0cells(v + twopi))
+            exp_side = 'low'
+        elif fld == Rat.const(C['TN_ANG_1']):
+            okv = v == X['A1'] + twopi
+            exp_side = 'high'
+        elif fld == Rat.const(C['TN_ANG_2']):
+            okv = v == X['A2'] + twopi
+            exp_side = 'high'
+        else:
+            okv, exp_side = False, None
+        seen.add(repr(fld))
+        if not (okv and strad and side == exp_side and len(fl) == 2):
+            okfix = False
+            whyfix = 'field %s: value ok %s, straddle test %s, half-plane %s (expected %s)' % (show(fld), okv, strad, side, exp_side)
+    if okfix and len(seen) != 3:
+        okfix, whyfix = False, 'fields %s' % sorted(seen)
+    rep.add('T11', f, entry, 'ENTER: 2*pi fix-up for cells straddling bearing 0', Le.node.lineno, okfix,
             'when the enter angle exceeds the centre angle the cell straddles bearing 0: before pi the enter angle is '
             'shifted down by 2*pi, afterwards the centre AND exit angles are shifted up by 2*pi, so that enter <= centre <= '
-            'exit holds in the frame of the current sweep position')
-    init = [n for n in f.own_nodes() if isinstance(n, ast.If) and n not in list(ast.walk(ent)) and T(n.test) == '%s>%s' % (A0, A1)]
-    ok = len(init) == 1 and [T(x) for x in init[0].body] == ['%s-=2*PI' % A0]
-    rep.add('T11', f, entry, 'initial sweepline cells: enter angle shifted down by 2*pi', f.node.lineno, ok,
-            'cells on the positive x axis start inside the sweep: their enter angle lies below 0')
-    vis = [n for n in ast.walk(ce) if isinstance(n, ast.If) and T(n.test) == 'max<=status_node[TN_GRAD_1]']
-    rep.add('T11', f, entry, 'CENTER: visible iff max gradient of nearer cells <= own gradient', ce.lineno, len(vis) == 1, '')
+            'exit holds in the frame of the current sweep position; ' + whyfix)
+    # insert
+    calls_ = [(j, e[1]) for j, e in in_loop if e[0] == 'call']
+    ins = [(j, c) for j, c in calls_ if c[0] == '_insert_into_tree']
+    okins = False
+    tree = None
+    if len(ins) == 1:
+        j, c = ins[0]
+        a = c[1]
+        laststore = max([jj for jj, e in ent if e[0] == 'store' and e[1].arr is node] + [-1])
+        okins = under(c[2], ENTER) and not under(c[2], EXIT) and not under(c[2], CENTER) and not type_only(c[2]) and len(a) == 5 and \
+            isinstance(a[0], Arr) and isinstance(a[1], Arr) and a[4] is node and isinstance(a[3], Rat) and \
+            _one(a[3]) is not None and _one(a[3]).name == 'call:_pop' and j > laststore
+        tree = (a[0], a[1])
+    rep.add('T11', f, entry, 'ENTER: node inserted under a free slot id, after all its fields are set', Le.node.lineno, okins,
+            'exactly the entering events insert the finished node, under an id popped from the idle list')
+    dele = [(j, c) for j, c in calls_ if c[0] == '_delete_from_tree']
+    push = [(j, c) for j, c in calls_ if c[0] == '_push']
+    okdel = False
+    if len(dele) == 1 and len(push) == 1 and tree is not None:
+        j, c = dele[0]
+        a = c[1]
+        keyat = _one(a[3]) if len(a) == 4 and isinstance(a[3], Rat) else None
+        okkey = keyat is not None and keyat.name in ('read', 'cell?') and keyat.args[0] == node.name and keyat.args[1] == Rat.const(C['TN_KEY_ID'])
+        pa = push[0][1][1]
+        okpush = len(pa) == 2 and isinstance(pa[1], Rat) and _one(pa[1]) is not None and _one(pa[1]).name == 'unpack' and \
+            'call:_delete_from_tree' in repr(_one(pa[1]).args[0]) and _one(pa[1]).args[1] == Rat.const(1)
+        okdel = under(c[2], EXIT) and not under(c[2], ENTER) and not under(c[2], CENTER) and not type_only(c[2]) and \
+            a[0] is tree[0] and a[1] is tree[1] and okkey and okpush and under(push[0][1][2], EXIT) and not under(push[0][1][2], CENTER)
+    rep.add('T11', f, entry, 'EXIT: node deleted by its distance key and its slot recycled', Le.node.lineno, okdel,
+            'exactly the exiting events delete the node with the cell\'s distance key from the same tree and push the freed id back')
+    # CENTER: query and visibility
+    inl = getattr(k, 'inlined', [])
+    q = [r for r in inl if r[0].name == '_max_grad_in_status_struct']
+    vis = [(j, c) for j, c in calls_ if c[0] == '_set_visibility']
+    okq = False
+    okvis = False
+    whyv = ''
+    if len(q) == 1 and tree is not None:
+        a = q[0][1]
+        cellk = lambda r, fld: isinstance(r, Rat) and _one(r) is not None and _one(r).name in ('read', 'cell?') and \
+            _one(r).args[0] == node.name and _one(r).args[1] == Rat.const(C[fld])
+        okq = len(a) == 6 and a[0] is tree[0] and a[1] is tree[1] and cellk(a[3], 'TN_KEY_ID') and a[4] == ANG and cellk(a[5], 'TN_GRAD_1')
+        if len(vis) == 1:
+            j, c = vis[0]
+            extra = type_only(c[2])
+            okg = len(extra) == 1 and extra[0][0] == 'cmp' and extra[0][1] == '<=' and any(
+                _pos_multiple(extra[0][3], q[0][3] - Rat.atom(x)) for x in guard_atoms(extra)
+                if isinstance(x, App) and x.name in ('read', 'cell?') and x.args[0] == node.name and x.args[1] == Rat.const(C['TN_GRAD_1']))
+            va = c[1]
+            keys = [x for x in walk_atoms(va[3]) if isinstance(x, App) and x.name in ('read', 'cell?') and x.args[0] == node.name] if len(va) == 4 and isinstance(va[3], Rat) else []
+            okva = False
+            if len(keys) == 1 and keys[0].args[1] == Rat.const(C['TN_KEY_ID']):
+                sp = Spec(prog, {'K__': Rat.atom(keys[0]), 'E1__': ae('AE_ELEV_1'), vp_elev: Rat.sym(vp_elev), vp_target: Rat.sym(vp_target)}, m)
+                okva = sp.it.as_scalar(sp.expr('_get_vertical_ang(%s, K__, E1__ + %s)' % (vp_elev, vp_target))) == va[3]
+            okargs = len(va) == 4 and _param_name(va[0]) == grid and va[1] == rc('E_ROW_ID') and va[2] == rc('E_COL_ID')
+            okvis = okg and okva and okargs and under(c[2], CENTER) and not under(c[2], ENTER) and not under(c[2], EXIT)
+            whyv = 'condition %s, vertical angle %s, (grid, row, col) %s' % (okg, okva, okargs)
+    rep.add('T11', f, entry, 'CENTER: max gradient among nearer cells (key, bearing, own gradient)', Le.node.lineno, okq,
+            'the query must use the cell\'s distance key, the event\'s bearing and the cell\'s centre gradient, on the same tree')
+    rep.add('T5', f, 'viewshed output', 'visible cells: _set_visibility(grid, row, col, vertical angle) under max gradient <= own gradient',
+            Le.node.lineno, okvis, 'a cell is written only for its centre event and when no nearer cell has a greater gradient, at its own '
+            'row/col, with the vertical angle from the observer elevation, the squared distance key and the cell elevation plus target '
+            'height; ' + whyv)
+    # ---- initial sweepline cells (east of the viewpoint, in its row)
+    Li = None
+    for L in k.loops:
+        if L is not Le and L.kind == 'range' and L.lo == Rat.sym(vp_col) + Rat.const(1) and L.hi == Rat.atom(App('shape', [raster, 1])):
+            Li = L
+    if Li is None:
+        rep.add('T11', f, entry, 'initial sweepline cells', f.node.lineno, None, 'loop over the cells east of the viewpoint not found')
+        return
+    ii = Rat.sym(Li.var)
+    d = lambda kk: Rat.atom(App('read', [data, Rat.const(kk), ii]))
+    try:
+        Y = expected(Rat.sym(vp_row), ii, d(0), d(1), d(2))
+    except AnalysisIncomplete as e:
+        rep.add('T11', f, entry, 'initial sweepline cells', Li.node.lineno, None, str(e))
+        return
+    sts = [e[1] for e in ev if e[0] == 'store' and e[1].arr is node and e[1].loops and e[1].loops[0] is Li]
+    base = {}
+    cond_st = []
+    gcommon = None
+    for st in sts:
+        if gcommon is None:
+            gcommon = tuple(cond_key(g) for g in st.guards)
+        if tuple(cond_key(g) for g in st.guards) == gcommon:
+            base[repr(st.idx[0])] = st.value
+        else:
+            cond_st.append(st)
+    want = {'TN_ANG_0': Y['A0'], 'TN_ANG_1': Y['A1'], 'TN_ANG_2': Y['A2'], 'TN_GRAD_0': Y['G0'], 'TN_KEY_ID': Y['K1'],
+            'TN_GRAD_1': Y['G1'], 'TN_GRAD_2': Y['G2']}
+    wrong = [n for n, v in want.items() if base.get(repr(Rat.const(C[n]))) != v]
+    okfix0 = len(cond_st) == 1 and cond_st[0].idx[0] == Rat.const(C['TN_ANG_0']) and cond_st[0].value == Y['A0'] - twopi and \
+        len(cond_st[0].guards) == len(gcommon or ()) + 1 and cond_st[0].guards[-1][0] == 'cmp' and cond_st[0].guards[-1][1] == '<' and \
+        any(_pos_multiple(cond_st[0].guards[-1][3], Y['A1'] - a0) for a0 in [Y['A0']] + [Rat.atom(a) for a in guard_atoms(cond_st[0].guards[-1:])
+                                                                                if isinstance(a, App) and a.name in ('read', 'cell?') and a.args[0] == node.name])
+    insi = [e[1] for e in ev if e[0] == 'call' and e[1][0] == '_insert_into_tree' and e[1][4] and e[1][4][0] is Li]
+    nanskip = gcommon is not None and len(gcommon) == 1 and any(isinstance(a, App) and a.name == 'isnan' and a.args[0] == d(1) for a in guard_atoms(sts[0].guards)) if sts else False
+    okins0 = len(insi) == 1 and tree is not None and insi[0][1][0] is tree[0] and insi[0][1][1] is tree[1] and insi[0][1][4] is node
+    rep.add('T11', f, entry, 'initial sweepline cells: node fields from row elevations, enter angle shifted down by 2*pi, inserted', Li.node.lineno,
+            not wrong and okfix0 and okins0 and nanskip,
+            'cells on the positive x axis start inside the sweep: their fields come from the three buffered elevation rows at '
+            '(viewpoint row, column), their enter angle lies below 0, NaN cells are skipped (wrong fields %s, fix-up %s, insert %s, '
+            'NaN skip %s)' % (wrong, okfix0, okins0, nanskip))
+
+
+def _param_name(a):
+    from ..kai import Arr
+    if isinstance(a, Arr):
+        return a.name
+    if isinstance(a, tuple) and a[:1] == ('param',):
+        return a[1]
+    return None
 
 
 def check(prog, rep):
